@@ -70,6 +70,10 @@ MUTANTS = [
     # ---- C15 / C18
     ('predicates-last-first', PP, "    for predicate, fn in _PREDICATE_REGISTRY:", "    for predicate, fn in reversed(_PREDICATE_REGISTRY):", ['C15']),
     ('register-deferred-false-registers', PP, "        if deferred_key in _DEFERRED_DISPATCH_BY_NAME:\n            if register_deferred:\n                deferred_dispatch = _DEFERRED_DISPATCH_BY_NAME.pop(\n                    deferred_key\n                )\n                register_pretty(type)(deferred_dispatch)", "        if deferred_key in _DEFERRED_DISPATCH_BY_NAME:\n            if True:\n                deferred_dispatch = _DEFERRED_DISPATCH_BY_NAME.pop(\n                    deferred_key\n                )\n                register_pretty(type)(deferred_dispatch)", ['C15']),
+    ('promote-last-deferred-in-mro', PP, "        for supertype in type.__mro__[1:]:", "        for supertype in reversed(type.__mro__[1:]):", ['C15']),
+    ('deferred-not-popped', PP, "                    deferred_dispatch = _DEFERRED_DISPATCH_BY_NAME.pop(\n                        deferred_key\n                    )\n                    register_pretty(supertype)(deferred_dispatch)", "                    deferred_dispatch = _DEFERRED_DISPATCH_BY_NAME[\n                        deferred_key\n                    ]\n                    register_pretty(supertype)(deferred_dispatch)", ['C15']),
+    ('check-superclasses-ignored', PP, "    if not check_superclasses:\n        return False", "    if False:\n        return False", ['C15']),
+    ('deferred-key-uses-name', PP, "    return type.__module__ + '.' + type.__qualname__", "    return type.__module__ + '.' + type.__name__", ['C15']),
     ('set-default-ribbon-into-width', INIT, "        new_defaults['ribbon_width'] = ribbon_width", "        new_defaults['width'] = ribbon_width", ['C18']),
     ('pprint-ignores-end', INIT, "    default_render_to_stream(stream, sdocs)\n    if end:\n        stream.write(end)", "    default_render_to_stream(stream, sdocs)\n    if end:\n        stream.write('\\n')", ['C18']),
     ('cpprint-drops-max-seq-len', INIT, "            ribbon_width=ribbon_width,\n            max_seq_len=max_seq_len,\n            sort_dict_keys=sort_dict_keys,\n        )\n    )\n    stream = (\n        # This is not in _default_config in case\n        # sys.stdout changes.\n        sys.stdout\n        if stream is _UNSET_SENTINEL\n        else stream\n    )\n    colored_render_to_stream", "            ribbon_width=ribbon_width,\n            max_seq_len=_UNSET_SENTINEL,\n            sort_dict_keys=sort_dict_keys,\n        )\n    )\n    stream = (\n        # This is not in _default_config in case\n        # sys.stdout changes.\n        sys.stdout\n        if stream is _UNSET_SENTINEL\n        else stream\n    )\n    colored_render_to_stream", ['C18']),
